@@ -7,7 +7,7 @@
    the centre is stamped with the current versions of everything behind n.  Proofs only. *)
 From Coq Require Import List Arith Bool ZArith Lia Permutation.
 From PTN Require Import Tree.RTree Tree.RTreeProofs Tree.Nav Tree.NavProofs Tree.UpdatePath
-     Tree.UpdatePathProofs Tree.CachePath Tree.CachePathProofs Tree.Enum Tree.Crossings Tree.EdgeBlock
+     Tree.UpdatePathProofs Tree.CachePath Tree.CachePathProofs Tree.Enum Tree.Crossings Tree.EdgeBlock Tree.Jumps
      Sched.TDVP Sched.TDVPProofs Sched.TDVPMore Sched.TDVPUniversal.
 Import ListNotations.
 
@@ -709,4 +709,279 @@ Theorem trace1_sched_ok : forall t, NoDup (ids t) -> 2 <= size t -> exists tr, t
 Proof.
   intros t Hw Hs. destruct (trace1_defined t Hw) as [tr Htr]. exists tr. split; auto.
   apply sched_ok_of_step; auto. exact (trace1_step_ok t tr Hw Hs Htr).
+Qed.
+
+(* ================================================================================== *)
+(* second-order one-site                                                              *)
+(* ================================================================================== *)
+Lemma run_moves_gen : forall t p s, NoDup (ids t) -> p <> [] -> inv t s -> centre s = hd 0 p -> chain (adjacent t) p ->
+  exists s', run t s (moves p) = Some s' /\ inv t s' /\ centre s' = last p 0.
+Proof.
+  intros t [|a r] s Hw Hne I Hc Hch; [congruence|]. destruct (run_moves t Hw a r s I Hc Hch) as [s' [R [I' C']]].
+  exists s'. split; auto. split; auto. rewrite C'. apply last_cons_default.
+Qed.
+
+Lemma hd_rev_last : forall (l : list nat) d, l <> [] -> hd d (rev l) = last l d.
+Proof.
+  intros l d H. destruct (@exists_last _ l H) as [l' [z ->]]. rewrite rev_app_distr, last_last. reflexivity.
+Qed.
+
+Lemma last_rev_hd : forall (l : list nat) d, last (rev l) d = hd d l.
+Proof. intros [|a l] d; [reflexivity|]. simpl rev. rewrite last_last. reflexivity. Qed.
+
+Lemma t2_forward_inv' : forall up op i es, t2_forward up op i = Some es ->
+  exists n p nx q, nth_error up i = Some n /\ (if Nat.eqb i 0 then Some [] else nth_error op (i - 1)) = Some p /\
+    nth_error op i = Some (nx :: q) /\ es = moves p ++ [AssertCentre n; Site n 1%Z] ++ link n nx 1%Z.
+Proof.
+  intros up op i es H. unfold t2_forward in H. destruct (nth_error up i) as [n|]; [|discriminate].
+  destruct (if Nat.eqb i 0 then Some [] else nth_error op (i - 1)) as [p|]; [|discriminate].
+  destruct (nth_error op i) as [[|nx q]|]; try discriminate. inversion H. exists n, p, nx, q. auto.
+Qed.
+
+Section Sweeps.
+  Variables (t : rtree) (up : list nat) (op : list (list nat)) (u : nat).
+  Hypothesis Hw : NoDup (ids t).
+  Hypothesis Hg : good_paths t up op.
+  Hypothesis H0 : nth_error up 0 = Some u.
+
+  (* the moves before forward update i bring the centre from cpos i to up[i] *)
+  Lemma moves_to_next : forall i n p s0, i < length up -> nth_error up i = Some n ->
+    (if Nat.eqb i 0 then Some [] else nth_error op (i - 1)) = Some p ->
+    inv t s0 -> centre s0 = cpos u up op i ->
+    exists s1, run t s0 (moves p) = Some s1 /\ inv t s1 /\ centre s1 = n.
+  Proof.
+    intros i n p s0 Hi0 Hn Hp I0 C0. destruct i as [|j].
+    - simpl in Hp. inversion Hp; subst p. exists s0. simpl in C0. split; [reflexivity|]. split; auto. congruence.
+    - simpl Nat.eqb in Hp. cbv iota in Hp. replace (S j - 1) with j in Hp by lia.
+      destruct (nth_error up j) as [a|] eqn:Ha; [|apply nth_error_None in Ha; lia].
+      destruct (proj2 Hg j a n Ha Hn) as [nx [q [_ [Hq _]]]]. rewrite Hp in Hq. inversion Hq; subst p.
+      destruct (good_path_chain t up op j a n nx q Hg Ha Hn Hp) as [_ [Hch Hlast]].
+      unfold cpos in C0. replace (Nat.ltb (S j) (length up)) with true in C0 by (symmetry; apply Nat.ltb_lt; lia).
+      rewrite Hp in C0. destruct (run_moves t Hw nx q s0 I0 C0 Hch) as [s1 [R1 [I1 C1]]]. exists s1. rewrite Hlast in C1. auto.
+  Qed.
+
+  (* the moves of backward update: from up[k+1] back along op[k] = h :: q to h *)
+  Lemma moves_back : forall k a b h q s0, nth_error up k = Some a -> nth_error up (S k) = Some b -> nth_error op k = Some (h :: q) ->
+    inv t s0 -> centre s0 = b ->
+    adjacent t h a /\ exists s1, run t s0 (moves (rev q ++ [h])) = Some s1 /\ inv t s1 /\ centre s1 = h.
+  Proof.
+    intros k a b h q s0 Ha Hb Hq I0 C0. destruct (good_path_chain t up op k a b h q Hg Ha Hb Hq) as [Hadj [Hch Hlast]].
+    split; [apply adjacent_sym; exact Hadj|].
+    change (rev q ++ [h]) with (rev (h :: q)).
+    destruct (run_moves_gen t (rev (h :: q)) s0 Hw) as [s1 [R1 [I1 C1]]]; auto.
+    - intro E. apply (f_equal (@length nat)) in E. rewrite rev_length in E. discriminate.
+    - rewrite hd_rev_last by discriminate. rewrite (last_cons_default q h 0 h). congruence.
+    - apply chain_rev. eapply chain_mono; [|exact Hch]. intros x y Hxy. apply adjacent_sym. exact Hxy.
+    - exists s1. split; auto. split; auto. rewrite C1, last_rev_hd. reflexivity.
+  Qed.
+End Sweeps.
+
+Section Fresh2.
+  Variables (t : rtree) (tr : list ev).
+  Hypothesis Hw : NoDup (ids t).
+  Hypothesis Htr : trace2 t = Some tr.
+
+  Lemma trace2_step_ok : exists u l, update_path t = Some (u :: l) /\
+    forall s, inv t s -> centre s = u -> exists s', run t s tr = Some s' /\ inv t s' /\ centre s' = u.
+  Proof.
+    destruct (trace2_unfold_full t tr Hw Htr) as [up [op [bop [l0 [y [z [fw [bw [Hu [Nu [Hi [Hgp [Eb [Eup [Hadj [Hopn [Hfw [Hbw Etr]]]]]]]]]]]]]]]]]].
+    assert (Lup : length up = length l0 + 2) by (rewrite Eup, app_length; simpl; lia).
+    assert (Hy : nth_error up (length l0) = Some y).
+    { rewrite Eup. rewrite nth_error_app2, Nat.sub_diag by lia. reflexivity. }
+    assert (Hz : nth_error up (S (length l0)) = Some z).
+    { rewrite Eup. rewrite nth_error_app2 by lia. replace (S (length l0) - length l0) with 1 by lia. reflexivity. }
+    destruct up as [|u l] eqn:Eupl; [simpl in Lup; lia|]. rewrite <- Eupl in *.
+    assert (H0 : nth_error up 0 = Some u) by (rewrite Eupl; reflexivity).
+    assert (Hn0 : nth 0 up 0 = u) by (rewrite Eupl; reflexivity).
+    exists u, l. split; [rewrite Hu, Eupl; reflexivity|]. intros s I Hc.
+    (* forward sweep *)
+    destruct (run_concat_seq t (t2_forward up op) (fun i s => inv t s /\ centre s = cpos u up op i) (length up - 1) 0 fw s Hfw) as [s1 [R1 [I1 C1]]].
+    { split; auto. }
+    { intros i es s0 Hi0 Hes [I0 C0]. destruct (t2_forward_inv' _ _ _ _ Hes) as [n [p [nx [q [Hn [Hp [Hq ->]]]]]]].
+      destruct (moves_to_next t up op u Hw Hgp H0 i n p s0) as [s1 [R1 [I1 C1]]]; auto; [lia|].
+      destruct (nth_error up (S i)) as [b|] eqn:Hb; [|apply nth_error_None in Hb; lia].
+      destruct (good_path_chain t up op i n b nx q Hgp Hn Hb Hq) as [Hadj' _].
+      destruct (run_site t Hw s1 n 1%Z I1 C1) as [s2 [R2 [I2 C2]]].
+      destruct (run_link t Hw s2 n nx 1%Z I2 C2 Hadj') as [s3 [R3 [I3 C3]]].
+      exists s3. split.
+      - eapply run_app_ok; [exact R1|]. change ([AssertCentre n; Site n 1%Z] ++ link n nx 1%Z) with ([AssertCentre n] ++ [Site n 1%Z] ++ link n nx 1%Z).
+        eapply run_app_ok; [apply run_assert_centre; auto|]. eapply run_app_ok; [exact R2|exact R3].
+      - split; auto. rewrite C3. unfold cpos. replace (Nat.ltb (S i) (length up)) with true by (symmetry; apply Nat.ltb_lt; lia).
+        rewrite Hq. reflexivity. }
+    (* the turning point *)
+    assert (C1z : centre s1 = z).
+    { rewrite C1. simpl. replace (length up - 1) with (S (length l0)) by lia. unfold cpos.
+      replace (Nat.ltb (S (length l0)) (length up)) with true by (symmetry; apply Nat.ltb_lt; lia). rewrite Hopn. reflexivity. }
+    destruct (run_site t Hw s1 z 2%Z I1 C1z) as [s2 [R2 [I2 C2]]].
+    destruct (run_link t Hw s2 z y 1%Z I2 C2 (adjacent_sym _ _ _ Hadj)) as [s3 [R3 [I3 C3]]].
+    (* backward sweep *)
+    destruct (run_concat_seq t (t2_backward (rev up) bop) (fun u' s => inv t s /\ nth_error up (length up - 1 - u') = Some (centre s))
+                (length up - 2) 1 bw s3 Hbw) as [s4 [R4 [I4 C4]]].
+    { split; auto. replace (length up - 1 - 1) with (length l0) by lia. rewrite C3. exact Hy. }
+    { intros u' es s0 Hu' Hes [I0 C0].
+      destruct (t2_backward_explicit t up op bop u' es Hw Nu Hi Hgp Eb) as [x [nx [h [q [pp [Hx [Hnx [Hq [Epp ->]]]]]]]]]; [lia|exact Hes|].
+      subst pp. replace (S (length up - 2 - u')) with (length up - 1 - u') in Hx by lia. assert (Ex : centre s0 = x) by congruence.
+      destruct (run_site t Hw s0 x 1%Z I0 Ex) as [s5 [R5 [I5 C5]]].
+      destruct (moves_back t up op Hw Hgp (length up - 2 - u') nx x h q s5 Hnx) as [Hadj' [s6 [R6 [I6 C6]]]]; auto.
+      { replace (S (length up - 2 - u')) with (length up - 1 - u') by lia. exact Hx. }
+      destruct (run_link t Hw s6 h nx 1%Z I6 C6 Hadj') as [s7 [R7 [I7 C7]]].
+      exists s7. split.
+      - change ([AssertCentre x; Site x 1%Z] ++ moves (rev q ++ [h]) ++ link h nx 1%Z)
+          with ([AssertCentre x] ++ [Site x 1%Z] ++ moves (rev q ++ [h]) ++ link h nx 1%Z).
+        eapply run_app_ok; [apply run_assert_centre; auto|]. eapply run_app_ok; [exact R5|]. eapply run_app_ok; [exact R6|exact R7].
+      - split; auto. rewrite C7. replace (length up - 1 - S u') with (length up - 2 - u') by lia. exact Hnx. }
+    replace (length up - 1 - (1 + (length up - 2))) with 0 in C4 by lia. assert (C4' : centre s4 = u) by congruence.
+    destruct (run_site t Hw s4 u 1%Z I4 C4') as [s5 [R5 [I5 C5]]].
+    exists s5. split; [|auto]. rewrite Etr, Hn0.
+    eapply run_app_ok; [exact R1|].
+    change (([AssertCentre z; Site z 2%Z] ++ link z y 1%Z) ++ bw ++ [AssertCentre u; Site u 1%Z])
+      with ([AssertCentre z] ++ (([Site z 2%Z] ++ link z y 1%Z) ++ bw ++ [AssertCentre u] ++ [Site u 1%Z])).
+    eapply run_app_ok; [apply run_assert_centre; auto|].
+    eapply run_app_ok; [eapply run_app_ok; [exact R2|exact R3]|].
+    eapply run_app_ok; [exact R4|]. eapply run_app_ok; [apply run_assert_centre; auto|exact R5].
+  Qed.
+End Fresh2.
+
+Theorem trace2_sched_ok : forall t, NoDup (ids t) -> 2 <= size t -> exists tr, trace2 t = Some tr /\ sched_ok t tr.
+Proof.
+  intros t Hw Hs. destruct (trace2_defined t Hw Hs) as [tr Htr]. exists tr. split; auto.
+  apply sched_ok_of_step; auto. exact (trace2_step_ok t tr Hw Htr).
+Qed.
+
+(* ================================================================================== *)
+(* second-order two-site                                                              *)
+(* ================================================================================== *)
+(* the last three entries of the update path form a path of the tree *)
+Theorem update_path_last_three : forall t, NoDup (ids t) -> 3 <= size t ->
+  exists l x y z, update_path t = Some (l ++ [x; y; z]) /\ adjacent t x y /\ adjacent t y z.
+Proof.
+  intros t Hw Hs.
+  destruct (update_path_last_two t Hw) as [l1 [y [z [Hu Hyz]]]]; [lia|].
+  destruct (update_path_facts t Hw) as [up [Hu' [Nu [Hi Hl]]]]. rewrite Hu in Hu'. inversion Hu'; subst up.
+  destruct (@exists_last _ l1) as [l0 [x E0]].
+  { intro E. rewrite E in Hl. simpl in Hl. lia. }
+  subst l1. exists l0, x, y, z. split; [rewrite Hu, <- app_assoc; reflexivity|]. split; [|exact Hyz].
+  destruct (update_path_jumps t Hw) as [up [Hu2 Hch]]. rewrite Hu in Hu2. inversion Hu2; subst up.
+  rewrite <- app_assoc in Hch. apply chain_app in Hch. destruct Hch as [_ Hch]. simpl in Hch.
+  destruct Hch as [[H|H] _]; [exact H|]. exfalso.
+  (* y has no children, so z is its parent; z is the end of the path: degree <= 1 *)
+  destruct (update_path_end t Hw) as [le [z' [Hz Hd]]]. rewrite Hu in Hz. inversion Hz as [Ez].
+  assert (z' = z).
+  { replace ((l0 ++ [x]) ++ [y; z]) with (((l0 ++ [x]) ++ [y]) ++ [z]) in Ez by (rewrite <- !app_assoc; reflexivity).
+    apply app_inj_tail in Ez. destruct Ez; auto. }
+  subst z'.
+  assert (Hzy : In (z, y) (edges t)).
+  { destruct Hyz as [He|He]; auto. apply (children_ids_edges t y z Hw) in He. rewrite H in He. destruct He. }
+  pose proof (proj2 (children_ids_edges t z y Hw) Hzy) as Hch.
+  unfold degree, neighbours in Hd. rewrite app_length in Hd.
+  destruct (parent_of z t) as [q|] eqn:Ep; [simpl in Hd; destruct (children_ids t z); [destruct Hch|simpl in Hd; lia]|].
+  assert (Hzr : z = rid t).
+  { destruct (Nat.eq_dec z (rid t)) as [E|E]; auto. exfalso.
+    destruct (parent_of_nonroot t z) as [p Hp]; auto. { apply edges_in_ids in Hzy. tauto. }
+    rewrite (parent_of_complete t p z Hw Hp) in Ep. discriminate. }
+  destruct t as [i cs]. simpl in Hzr. subst z.
+  unfold children_ids in Hch, Hd. simpl subtree in Hch, Hd. rewrite Nat.eqb_refl in Hch, Hd. simpl in Hch, Hd.
+  destruct cs as [|g [|g2 cs]]; simpl in Hd; try lia; [destruct Hch|]. simpl in Hch. destruct Hch as [Eg|[]].
+  assert (Hg : is_subtree g (RNode i [g])) by (apply (is_subtree_child (RNode i [g]) g); simpl; auto).
+  pose proof (subtree_complete _ g Hw Hg) as Hsg. rewrite Eg in Hsg. unfold children_ids in H. rewrite Hsg in H.
+  destruct g as [j gs]. simpl in H. destruct gs; [|discriminate]. simpl in Hs. lia.
+Qed.
+
+Lemma t2s_forward_inv' : forall up op i es, t2s_forward up op i = Some es ->
+  exists n p nx q, nth_error up i = Some n /\ (if Nat.eqb i 0 then Some [] else nth_error op (i - 1)) = Some p /\
+    nth_error op i = Some (nx :: q) /\ es = moves p ++ [AssertCentre n] ++ two n nx 1%Z ++ [SiteBack nx 1%Z].
+Proof.
+  intros up op i es H. unfold t2s_forward in H. destruct (nth_error up i) as [n|]; [|discriminate].
+  destruct (if Nat.eqb i 0 then Some [] else nth_error op (i - 1)) as [p|]; [|discriminate].
+  destruct (nth_error op i) as [[|nx q]|]; try discriminate. inversion H. exists n, p, nx, q. auto.
+Qed.
+
+Section Fresh2s.
+  Variables (t : rtree) (tr : list ev).
+  Hypothesis Hw : NoDup (ids t).
+  Hypothesis Htr : trace2s t = Some tr.
+
+  Lemma trace2s_step_ok : exists u l, update_path t = Some (u :: l) /\
+    forall s, inv t s -> centre s = u -> exists s', run t s tr = Some s' /\ inv t s' /\ centre s' = u.
+  Proof.
+    destruct (trace2s_unfold_full t tr Hw Htr) as [up [op [l0 [y [z [fw [bw [Hu [Nu [Hi [Hgp [Eup [Hadj [Hopn [Hfw [Hbw Etr]]]]]]]]]]]]]]]].
+    assert (Lup : length up = length l0 + 2) by (rewrite Eup, app_length; simpl; lia).
+    assert (Hy : nth_error up (length l0) = Some y).
+    { rewrite Eup. rewrite nth_error_app2, Nat.sub_diag by lia. reflexivity. }
+    assert (Hz : nth_error up (S (length l0)) = Some z).
+    { rewrite Eup. rewrite nth_error_app2 by lia. replace (S (length l0) - length l0) with 1 by lia. reflexivity. }
+    destruct up as [|u l] eqn:Eupl; [simpl in Lup; lia|]. rewrite <- Eupl in *.
+    assert (H0 : nth_error up 0 = Some u) by (rewrite Eupl; reflexivity).
+    exists u, l. split; [rewrite Hu, Eupl; reflexivity|]. intros s I Hc.
+    assert (Hsize : length up = size t).
+    { destruct (update_path_facts t Hw) as [up' [Hu' [_ [_ Hl']]]]. congruence. }
+    (* forward sweep *)
+    destruct (run_concat_seq t (t2s_forward up op) (fun i s => inv t s /\ centre s = cpos u up op i) (length up - 2) 0 fw s Hfw) as [s1 [R1 [I1 C1]]].
+    { split; auto. }
+    { intros i es s0 Hi0 Hes [I0 C0]. destruct (t2s_forward_inv' _ _ _ _ Hes) as [n [p [nx [q [Hn [Hp [Hq ->]]]]]]].
+      destruct (moves_to_next t up op u Hw Hgp H0 i n p s0) as [s1 [R1 [I1 C1]]]; auto; [lia|].
+      destruct (nth_error up (S i)) as [b|] eqn:Hb; [|apply nth_error_None in Hb; lia].
+      destruct (good_path_chain t up op i n b nx q Hgp Hn Hb Hq) as [Hadj' _].
+      destruct (run_two t Hw s1 n nx 1%Z I1 C1 Hadj') as [s2 [R2 [I2 C2]]].
+      destruct (run_site_back t Hw s2 nx 1%Z I2 C2) as [s3 [R3 [I3 C3]]].
+      exists s3. split.
+      - eapply run_app_ok; [exact R1|]. eapply run_app_ok; [apply run_assert_centre; auto|]. eapply run_app_ok; [exact R2|exact R3].
+      - split; auto. rewrite C3. unfold cpos. replace (Nat.ltb (S i) (length up)) with true by (symmetry; apply Nat.ltb_lt; lia).
+        rewrite Hq. reflexivity. }
+    (* the centre is on up[-2] *)
+    assert (C1y : centre s1 = y).
+    { rewrite C1. simpl. replace (length up - 2) with (length l0) by lia. destruct (length l0) as [|k] eqn:Ek.
+      - simpl. congruence.
+      - unfold cpos. replace (Nat.ltb (S k) (length up)) with true by (symmetry; apply Nat.ltb_lt; lia).
+        destruct (update_path_last_three t Hw) as [l' [x' [y' [z' [Hu3 [Hxy _]]]]]]; [lia|].
+        rewrite Hu in Hu3. inversion Hu3 as [E3].
+        assert (Hl' : length l' = k) by (apply (f_equal (@length nat)) in E3; rewrite app_length in E3; simpl in E3; lia).
+        assert (Hx' : nth_error up k = Some x').
+        { rewrite E3. rewrite nth_error_app2, Hl', Nat.sub_diag by lia. reflexivity. }
+        assert (Hy' : nth_error up (S k) = Some y').
+        { rewrite E3. rewrite nth_error_app2 by lia. rewrite Hl'. replace (S k - k) with 1 by lia. reflexivity. }
+        assert (y' = y) by congruence. subst y'.
+        destruct (proj2 Hgp k x' y Hx' Hy') as [nx [q [Hp [Hq _]]]].
+        assert (Hne : x' <> y) by (eapply NoDup_nth_neq; eauto).
+        rewrite (path_adjacent t x' y Hw Hxy Hne) in Hp. inversion Hp; subst nx q. rewrite Hq. reflexivity. }
+    destruct (run_two t Hw s1 y z 1%Z I1 C1y Hadj) as [s2 [R2 [I2 C2]]].
+    destruct (run_two t Hw s2 z y 1%Z I2 C2 (adjacent_sym _ _ _ Hadj)) as [s3 [R3 [I3 C3]]].
+    (* backward sweep *)
+    destruct (run_concat_seq t (t2s_backward (rev up) (back_orth_paths2 op))
+                (fun u' s => inv t s /\ nth_error up (length up - 1 - u') = Some (centre s))
+                (length up - 2) 1 bw s3 Hbw) as [s4 [R4 [I4 C4]]].
+    { split; auto. replace (length up - 1 - 1) with (length l0) by lia. rewrite C3. exact Hy. }
+    { intros u' es s0 Hu' Hes [I0 C0].
+      destruct (t2s_backward_explicit up op u' es (proj1 Hgp)) as [nx [h [q [pp [Hnx [Hq [Epp ->]]]]]]]; [lia|exact Hes|].
+      subst pp.
+      assert (Hx : nth_error up (S (length up - 2 - u')) = Some (centre s0)).
+      { replace (S (length up - 2 - u')) with (length up - 1 - u') by lia. exact C0. }
+      destruct (moves_back t up op Hw Hgp (length up - 2 - u') nx (centre s0) h q s0 Hnx Hx Hq I0 eq_refl) as [Hadj' [s5 [R5 [I5 C5]]]].
+      destruct (run_site_back t Hw s5 h 1%Z I5 C5) as [s6 [R6 [I6 C6]]].
+      destruct (run_two t Hw s6 h nx 1%Z I6 C6 Hadj') as [s7 [R7 [I7 C7]]].
+      exists s7. split.
+      - eapply run_app_ok; [exact R5|]. eapply run_app_ok; [exact R6|exact R7].
+      - split; auto. rewrite C7. replace (length up - 1 - S u') with (length up - 2 - u') by lia. exact Hnx. }
+    replace (length up - 1 - (1 + (length up - 2))) with 0 in C4 by lia.
+    assert (C4' : centre s4 = u) by congruence.
+    exists s4. split; [|auto]. rewrite Etr.
+    eapply run_app_ok; [exact R1|]. eapply run_app_ok; [eapply run_app_ok; [exact R2|exact R3]|exact R4].
+  Qed.
+End Fresh2s.
+
+Theorem trace2s_sched_ok : forall t, NoDup (ids t) -> 2 <= size t -> exists tr, trace2s t = Some tr /\ sched_ok t tr.
+Proof.
+  intros t Hw Hs. destruct (trace2s_defined t Hw Hs) as [tr Htr]. exists tr. split; auto.
+  apply sched_ok_of_step; auto. exact (trace2s_step_ok t tr Hw Htr).
+Qed.
+
+(* ================================================================================== *)
+(* the universal form of cache_fresh_bounded_9                                        *)
+(* ================================================================================== *)
+Theorem cache_fresh_universal : forall t, NoDup (ids t) -> 2 <= size t ->
+  (exists tr, trace1 t = Some tr /\ sched_ok t tr) /\
+  (exists tr, trace2 t = Some tr /\ sched_ok t tr) /\
+  (exists tr, trace2s t = Some tr /\ sched_ok t tr).
+Proof.
+  intros t Hw Hs. split; [|split]; [apply trace1_sched_ok | apply trace2_sched_ok | apply trace2s_sched_ok]; auto.
 Qed.
